@@ -189,7 +189,20 @@ def ops(kind="structural"):
         _OPS["structural"] = _ops_structural()
         _OPS["other"] = _ops_other()
         _OPS["all"] = dict(_OPS["structural"], **_OPS["other"])
+        _OPS["serial"] = _ops_serial()
+        _OPS["lookup"] = dict(_OPS["all"], **_OPS["serial"])
     return _OPS[kind]
+
+
+def _ops_serial():
+    """attributes that only the serialisation checks look at (not in "all": the code generator has nothing to say about them)"""
+    import pharmpy.modeling as pm
+
+    def obs_log(m):
+        y = list(m.dependent_variables.keys())[0]
+        return m.replace(observation_transformation={y: y.log()})
+
+    return {"obs_log": obs_log, "dtbs": pm.set_dtbs_error_model}
 
 
 REFUSALS = (ValueError, NotImplementedError)
@@ -235,7 +248,7 @@ def apply(model, label, private=True):
     """-> (new model or None, outcome) ; outcome: 'ok' | 'refused:<Type>' | 'crash:<Type>: msg'"""
     import warnings
 
-    f = ops("all")[label]
+    f = ops("lookup")[label]
     # every call gets a private copy of the dataset: some transformations write into the DataFrame of their
     # argument (checked by C06); without this the cached parent state would change under our feet.
     # private=False hands over the very object (sibling plans: two derivations from ONE parent object)
